@@ -5,6 +5,7 @@ import (
 	"fmt"
 	"strings"
 	"testing"
+	"time"
 
 	"pgregory.net/rapid"
 
@@ -35,6 +36,11 @@ type c05Case struct {
 	// GateStart: the delivery goroutine starts only when the harness lets it
 	// (released whenever the command loop waits for it, and at the end)
 	GateStart bool `json:"gate_start,omitempty"`
+	// StallAt > 0 (valid state only): 30 ms ReadTimeout; the client sends the
+	// first StallAt octets of the BDAT part, stays silent until the server has
+	// reacted to the timeout, then sends the rest. Only "no payload octet is
+	// executed" is demanded then.
+	StallAt int `json:"stall_at,omitempty"`
 }
 
 const c05Bait = "MAIL FROM:<bait@x>\r\nRCPT TO:<bait@x>\r\nQUIT\r\nDATA\r\nBDAT 3 LAST\r\n"
@@ -153,6 +159,10 @@ func c05Run(c c05Case) Verdict {
 	p := c05Build(c)
 	lmtp := c.Mode != 0
 	cfg := harness.Config{LMTP: lmtp, MaxLineLength: c.MaxLine}
+	stall := c.StallAt > 0 && c.StallAt < len(p.body.buf) && c.State == "valid"
+	if stall {
+		cfg.ReadTimeoutMs = 30
+	}
 	if c.State == "overlimit" {
 		cfg.MaxMessageBytes = c.Limit
 	}
@@ -184,7 +194,20 @@ func c05Run(c c05Case) Verdict {
 		w.Finish()
 		return Verdict{Inconclusive: "preamble: " + m}
 	}
-	w.SendCuts(p.body.buf, c.Cuts)
+	if stall {
+		w.Send(p.body.buf[:c.StallAt])
+		w.Recv()
+		r.Hub.WaitUntil(func() bool { return w.S.ClosedLocked() || w.S.WrittenLocked() > int64(len(w.Out)) }, harness.Watchdog)
+		// the replies to what was sent before the stall may come first; wait
+		// for the server to settle, then for the timeout's own reaction
+		w.WaitQuiet()
+		w.Recv()
+		r.Hub.WaitUntil(func() bool { return w.S.ClosedLocked() || w.S.WrittenLocked() > int64(len(w.Out)) }, 200*time.Millisecond)
+		w.WaitQuiet()
+		w.Send(p.body.buf[c.StallAt:])
+	} else {
+		w.SendCuts(p.body.buf, c.Cuts)
+	}
 	for i := 0; c.GateStart && i < 64; i++ {
 		if st := w.WaitQuiet(); st != harness.QGate {
 			break
@@ -257,6 +280,13 @@ func c05Run(c c05Case) Verdict {
 		if strings.Contains(e.From, "bait") || strings.Contains(e.To, "bait") {
 			return failf("bait-executed", "payload of a BDAT chunk was executed as a command: %s", e)
 		}
+	}
+	if stall {
+		v.Classes = append(v.Classes, "stalled_past_read_timeout")
+		if pn := r.Log.Panicked(); pn != "" {
+			return failf("panic", "server logged a panic: %s", pn)
+		}
+		return v // only "no payload octet executed" (checked above) is demanded
 	}
 	rs, err := harness.ParseReplies(rest)
 	if err != nil {
@@ -381,6 +411,15 @@ func c05Gen(t *rapid.T) c05Case {
 	p := c05Build(c)
 	c.Reads = genReadSizes(t, "reads")
 	c.GateStart = rapid.IntRange(0, 2).Draw(t, "gate_start") == 0
+	if c.State == "valid" && rapid.IntRange(0, 999).Draw(t, "stall")%25 == 7 {
+		// payloads full of bait, stalled somewhere inside
+		for i := range c.Chunks {
+			c.Chunks[i].Payload = c05BaitPayload(len(c.Chunks[i].Payload) + 30)
+		}
+		pb := c05Build(c)
+		c.StallAt = rapid.IntRange(1, len(pb.body.buf)-1).Draw(t, "stall_at")
+		c.GateStart = false
+	}
 	// segmentation: interesting positions are the ends of command lines
 	var ends []int
 	off := 0
